@@ -167,10 +167,10 @@ def run(ctx):
     for fl in flavours(ctx):
         ctx.unit = fl
         ctx.doc('C14.5', 'native API forwarding: each public entry point of this property reaches the implementation of the same name with its parameters in order and returns its result (sibling slips such as trylock -> lock, signal -> broadcast, swapped arguments)')
-        lib.native_forwarding(ctx, 'C14.5', fl, lambda n: n == 'myth_once', floor=2)
-        rule_body(ctx, fl)
+        ctx.attempt(lib.native_forwarding, ctx, 'C14.5', fl, lambda n: n == 'myth_once', floor=2)
+        ctx.attempt(rule_body, ctx, fl)
     ctx.unit = 'wrap'
-    rule_wrap(ctx)
+    ctx.attempt(rule_wrap, ctx)
 
 
 SYNC = 'src/myth_sync_func.h'
